@@ -547,6 +547,46 @@ pub fn run(a: &Args) -> anyhow::Result<String> {
                 per_run(ev, &mut out)?;
             }
         },
+        "crowd" => {
+            // one flight with more callers than any counter inside the group may assume (65536 and more): one task run,
+            // everybody gets its value.  Only the totals are recorded (350 000 hook events would say nothing more).
+            for r in 0..a.u64("n", 1) {
+                let n = a.u64("callers", 66000) as usize + r as usize;
+                ctl.reset_sched();
+                ctl.set_controlled(false);
+                let rt = tokio::runtime::Builder::new_multi_thread().worker_threads(4).enable_all().build().unwrap();
+                let group: Arc<Group<i64, i64>> = Arc::new(Group::new());
+                let runs_ctr = Arc::new(std::sync::atomic::AtomicUsize::new(0));
+                let mut hs = Vec::with_capacity(n);
+                for _ in 0..n {
+                    let g = group.clone();
+                    let rc = runs_ctr.clone();
+                    hs.push(rt.spawn(async move {
+                        let task = async move {
+                            rc.fetch_add(1, std::sync::atomic::Ordering::SeqCst);
+                            tokio::time::sleep(Duration::from_millis(1500)).await;
+                            Ok::<i64, i64>(42)
+                        };
+                        g.work("crowd", task).await.0.ok()
+                    }));
+                }
+                let (mut returned, mut hung, mut wrong) = (0usize, 0usize, 0usize);
+                rt.block_on(async {
+                    let deadline = tokio::time::Instant::now() + Duration::from_secs(40);
+                    for h in hs {
+                        match tokio::time::timeout_at(deadline, h).await {
+                            Ok(Ok(Some(42))) => returned += 1,
+                            Ok(_) => wrong += 1,
+                            Err(_) => hung += 1,
+                        }
+                    }
+                });
+                rt.shutdown_background();
+                let _ = ctl.take_events();
+                let ev = vec![json!({"ev":"SfCrowd","actor":"","callers":n,"returned":returned,"hung":hung,"wrong":wrong,"task_runs":runs_ctr.load(std::sync::atomic::Ordering::SeqCst)}).to_string()];
+                per_run(ev, &mut out)?;
+            }
+        },
         m => anyhow::bail!("unknown mode {m}"),
     }
     let (runs, events) = out.finish()?;
